@@ -38,6 +38,7 @@ def run(ctx):
     ctx.assumptions += ["the other MEMPOOL_MODE flags are clvmr dialect flags (not analysed)",
                         "order-only vectors (agg_sig_*, messages, pkm_pairs) are consumed by order-insensitive folds (C01.5 counters, aggregate verification)"]
     c06_1(ctx)
+    c06_1c(ctx)
     c06_2(ctx)
     c06_3(ctx)
 
@@ -104,6 +105,108 @@ def c06_1(ctx):
             ctx.ob(R, "flag-region:%s:%s#%d" % (p.split("::")[-1][:40], fl[0], n_edges), not eff,
                    "the code executed only under %s has no effects (pure additional checks)" % fl[0], where=bb.where(sb), found=eff[:3] or None)
     ctx.floor(R, "flag-true branches in the spend pipeline", n_edges, 10)
+
+
+STRICT_NAMES = ("STRICT_ARGS_COUNT", "NO_UNKNOWN_CONDS", "LIMIT_SPENDS", "MEMPOOL_MODE")
+FLAG_ADDERS = ("bitor", "bitor_assign", "union", "insert")
+
+
+def _has_strict(t):
+    from .. import mir
+    return mir.contains(t, lambda x: isinstance(x, tuple) and x and x[0] in ("c", "cs", "cb") and x[-1] and
+                        any(str(x[-1]).endswith("::" + n) for n in STRICT_NAMES))
+
+
+def c06_1c(ctx):
+    """The strictness flags are only ever *tested* through `flags.contains(ONE_FLAG)` (whose true-region is checked above and
+    whose false-region must not reject) and otherwise only *added* to a flag set (bitor/union/insert).  Any other use --
+    intersects, difference, remove, complement, raw bits arithmetic, a composite mask given to contains -- is a test whose
+    polarity the region rule does not see (e.g. `!flags.intersects(A | STRICT)` switches a rejection OFF when the strict flag
+    is set), so it is reported."""
+    R = "C06.1"
+    fb = ctx.fb
+    n_tests = 0
+    bad = []
+    for p, f in sorted(fb.fns.items()):
+        if not (p.startswith(CC) or p.startswith("chia_rs::")):
+            continue
+        if not any(c.get("def", "").startswith(CC + "flags::") or (c.get("res") or "").startswith(CC + "flags::") for c in f.e.get("calls", [])):
+            continue
+        bb = Body(f, fb)
+        for bi, n, t in bb.calls():
+            fn_ = U.flat(n)
+            if not fn_.startswith(CC + "flags::_::") and not fn_.startswith(CC + "flags::ConsensusFlags::"):
+                continue
+            args = [strip_all(bb.operand_term(a)) for a in t["args"]]
+            if not any(_has_strict(a) for a in args):
+                continue
+            meth = fn_.split("::")[-1]
+            if meth in FLAG_ADDERS:
+                continue
+            if meth == "contains" and len(args) == 2 and args[1][0] in ("c", "cs", "cb") and not _has_strict(args[0]):
+                n_tests += 1
+                # false-region: never rejects on its own
+                for node in bb.edge_info:
+                    sb, lab, tb = bb.edge_info[node]
+                    if sb not in bb.reach:
+                        continue
+                    ct, cl = bb.edge_condition(node)
+                    if cl != ("bool", False) or not _has_strict(ct):
+                        continue
+                    sct = strip_all(ct)
+                    if not (sct[0] == "call" and U.flat(sct[1]).endswith("::contains")):
+                        continue
+                    dom = bb.dominators()
+                    region = [x for x in range(bb.n) if x in dom and dom[x] and node in dom[x]]
+                    if _true_side_always_rejects(bb, sb):
+                        continue
+                    for x in region:
+                        for st in bb.blocks[x]["s"]:
+                            if st["k"] == "assign" and st["pl"]["l"] == 0 and st["rv"]["k"] == "agg" and st["rv"].get("variant") == "Err":
+                                bad.append("%s: rejects only when the strict flag is NOT set (%s)" % (p, bb.where(x)))
+                        tt = bb.blocks[x]["t"]
+                        if tt["k"] == "call" and "from_residual" in U.flat(callee_of(tt)):
+                            bad.append("%s: propagates an error only when the strict flag is NOT set (%s)" % (p, bb.where(x)))
+                continue
+            bad.append("%s: strict flag used through `%s` at %s" % (p, meth, bb.where(bi)))
+        ctx.touched(p)
+    ctx.ob(R, "strict-flag-uses", not bad,
+           "strictness flags are tested only by contains(single flag) -- whose false side never rejects -- and otherwise only added to flag sets",
+           found=sorted(set(bad))[:4] or None)
+    ctx.floor(R, "contains(strict flag) tests", n_tests, 10)
+
+
+def _true_side_always_rejects(bb, sb):
+    """the flag-true successor of switch block sb leads only to `_0 = Err(..); return` (no Ok, no way back to the switch)"""
+    for node in bb.edge_info:
+        if bb.edge_info[node][0] != sb:
+            continue
+        ct, cl = bb.edge_condition(node)
+        if cl != ("bool", True):
+            continue
+        reach = bb.reachable_from(node)
+        if sb in reach:
+            return False
+        has_err = False
+        for x in reach:
+            if x >= bb.n:
+                continue
+            for st in bb.blocks[x]["s"]:
+                if st["k"] == "assign" and st["pl"]["l"] == 0 and st["rv"]["k"] == "agg":
+                    if st["rv"].get("variant") == "Err":
+                        has_err = True
+                    else:
+                        return False
+            tt = bb.blocks[x]["t"]
+            if tt["k"] == "call" and tt["dest"]["l"] == 0 and not tt["dest"].get("p"):
+                return False
+        return has_err
+    return False
+
+
+def callee_of(tt):
+    from ..mir import callee_name
+    return callee_name(tt["f"])
 
 
 def _guard_only_local(b, l):
@@ -386,3 +489,63 @@ def c06_3(ctx):
                "every guard of %s is a permutation-invariant test (balance of sums, set membership, per-element iteration, presence, equality); "
                "none orders spend positions" % name.split("::")[-1], where=b.fn.sp, found=bad[:4] or None)
     ctx.floor(R, "post-loop guards classified", n, 25)
+    c06_3b(ctx)
+
+
+ALLOWED_LOOP_MUT = ("HashSet::insert", "HashMap::entry", "Entry::or_insert", "::next", "into_iter", "Iterator::next", "HashMap::values",
+                    "HashSet::contains", "HashMap::get", "IntoIterator::into_iter")
+
+
+def _fresh_per_iteration(b, ct):
+    """every `&mut` argument of the call borrows a local that is (re)created inside the loop on each iteration
+    (a per-element hasher), so the call carries no state across iterations"""
+    roots = []
+    for a in ct[2]:
+        x = a
+        while isinstance(x, tuple) and x and x[0] == "mutated":
+            x = x[1]
+        if isinstance(x, tuple) and x and x[0] == "refmut":
+            roots.append(x[1])
+    if not roots:
+        return False
+    for l in roots:
+        ds = b.defs().get(l, [])
+        if not ds or not all(d[1] in b.reach and b.in_cycle(d[1]) for d in ds):
+            return False
+    return True
+
+
+def c06_3b(ctx):
+    """the deferred checks accumulate across spends/conditions only commutatively: inside the loops of validate_conditions
+    the only stores are `*slot = *slot + v` (checked add: exact integer sum, so the final balance is independent of the order
+    in which sends and receives are seen) and the only in-place calls are set/map insertions and iterator steps.
+    A saturating/wrapping/min/max update of a balance is order dependent."""
+    R = "C06.3"
+    b = U.body(ctx, R, CC + "conditions::validate_conditions")
+    if not b:
+        return
+    bad = []
+    n = 0
+    for bi, blk in enumerate(b.blocks):
+        if bi not in b.reach or not b.in_cycle(bi):
+            continue
+        for st in blk["s"]:
+            if st["k"] == "assign" and st["pl"].get("p") and "*" in [e for e in st["pl"]["p"] if isinstance(e, str)]:
+                n += 1
+                place = apnf.N(b.place_term(st["pl"]))
+                val = apnf.N(b.rvalue_term(st["rv"]))
+                ok = isinstance(val, tuple) and val[0] == ".0" and isinstance(val[1], tuple) and val[1][0] == "AddWithOverflow" and val[1][1] == place
+                if not ok:
+                    bad.append("store %s <- %s at %s" % (str(place)[:80], str(val)[:120], b.where(bi)))
+        tt = blk["t"]
+        if tt["k"] == "call":
+            ct = b.call_term(tt)
+            if len(ct) == 4:
+                n += 1
+                nm = U.flat(ct[1])
+                if not any(nm.endswith(a) or a in nm for a in ALLOWED_LOOP_MUT) and not _fresh_per_iteration(b, ct):
+                    bad.append("in-place call %s at %s" % (nm, b.where(bi)))
+    ctx.ob(R, "accumulation:validate_conditions", not bad,
+           "inside the loops of validate_conditions balances are updated only by exact checked addition and sets only by insertion",
+           found=bad[:4] or None, where=b.fn.sp)
+    ctx.floor(R, "in-loop stores and in-place calls of validate_conditions", n, 5)
